@@ -76,7 +76,7 @@ def kern_pairs(font):
     return res
 
 
-def compare_fonts(chk, in_bytes, out_bytes, flags, ctx, replay, colr_input):
+def compare_fonts(chk, in_bytes, out_bytes, flags, ctx, replay, colr_input, build_dir=None):
     from fontTools.ttLib import TTFont
 
     fin = TTFont(io.BytesIO(in_bytes), lazy=False)
@@ -154,8 +154,17 @@ def compare_fonts(chk, in_bytes, out_bytes, flags, ctx, replay, colr_input):
                 if "too small" not in p:
                     chk.violation(p, replay)
         if "CBDT" in fout and "--bitmaps" in flags:
-            if not any(gout in s for s in fout["CBDT"].strikeData):
+            imgs = [bytes(s[gout].imageData) for s in fout["CBDT"].strikeData if gout in s]
+            if not imgs:
                 chk.violation(f"{ctx}: U+{cp:04X} ({gout}) has no bitmap in CBDT", replay)
+            elif build_dir is not None:
+                # the picture of the input's glyph id k is rendered to bitmap/<k>.png: that image, and no other, belongs
+                # to the glyph reached from the same codepoint
+                png = Path(build_dir) / "bitmap" / f"{fin.getGlyphID(gin):05d}.png"
+                if png.exists() and png.read_bytes() not in imgs:
+                    others = [p.name for p in sorted((Path(build_dir) / "bitmap").glob("*.png")) if p.read_bytes() in imgs]
+                    chk.violation(f"{ctx}: U+{cp:04X} ({gout}) carries in CBDT the bitmap rendered for {others or 'something else'}, "
+                                  f"not {png.name} (the picture of its own glyph)", replay)
 
 
 class _Exp:
@@ -364,7 +373,7 @@ def run(chk):
     for k, order in enumerate([["zeta", "plainA", "alpha", "plainB", "mid", "markacc"], ["mid", "zeta", "plainA", "alpha", "markacc"],
                                ["plainA", "plainB", "zz", "yy", "xx", "markacc"]][: (2 if quick else 3)]):
         sc = {"target": [".notdef"] + order, "colour": [g for g in order if not g.startswith("plain") and g != "markacc"]}
-        jobs.append(("thirdparty-marks", k, sc, ["--keep_glyph_names"], 1))
+        jobs.append(("thirdparty-marks", k, sc, ["--keep_glyph_names"] + (["--bitmaps"] if k == 1 else []), 1))
     # arbitrary supported paint graphs: the trees ColrToSvg.tla enumerates (nested transforms, references, groups)
     tres = common.run_tlc("ColrToSvg", "ColrToSvg.cfg", timeout=900, coverage=False)
     chk.add_tlc(tres, "ColrToSvg.cfg (paint graphs for the third-party fonts)")
@@ -415,7 +424,7 @@ def run(chk):
                 chk.violation(f"{ctx}: maximum_color fails: {out['log'][-300:]}", replay)
                 continue
             colr_input = b"COLR" in out["input"][:400] or _is_colr(out["input"])
-            compare_fonts(chk, out["input"], out["bytes"], flags, ctx, replay, colr_input)
+            compare_fonts(chk, out["input"], out["bytes"], flags, ctx, replay, colr_input, build_dir=out["build_dir"])
             if kind == "thirdparty" and "--keep_glyph_names" in flags:
                 from fontTools.ttLib import TTFont
 
